@@ -268,6 +268,7 @@ func (s *Server) ServeBack(c *aries.C) error {
 func (s *Server) serveBackSide(
 	c *aries.C, name string, k *sessionKey,
 ) error {
+	verifPoint("side", name, nil)
 	ep, err := s.endpoint(name)
 	if err != nil {
 		return errcode.Annotate(err, "find endpoint")
